@@ -3,4 +3,4 @@ Require Import ExtrOcamlBasic.
 From Coq Require Import NArith ZArith List.
 From CppcmsV Require Import C02.Defs.
 Definition keep_types : (N * Z * nat) := (0%N, 0%Z, 0%nat).
-Extraction "c02m.ml" keep_types http_run scgi_run fcgi_run atoll atoi is_multipart.
+Extraction "c02m.ml" keep_types http_run scgi_run fcgi_run atoll atoi is_multipart scgi_unterminated_class.
